@@ -228,7 +228,9 @@ class ForcePlatformsDataBlock(Block):
         Returns:
             List[ForcePlatformData]: List of platforms in the block.
         """
-        return self._platforms
+        # a copy: appending to the returned list (also through `block.platforms += [...]`)
+        # must not put platforms into the block behind the back of the channel map
+        return list(self._platforms)
 
     @platforms.setter
     def platforms(self, platforms: Iterable[ForcePlatformData]) -> None:
